@@ -21,6 +21,9 @@ pub struct Transform {
     /// cyclic case-flip mask
     pub case_mask: Vec<bool>,
     pub gzip: bool,
+    /// Windows line endings in the transformed files
+    #[serde(default)]
+    pub crlf: bool,
     /// sort keys for the sample permutation
     pub sample_perm: Vec<u16>,
 }
@@ -41,8 +44,9 @@ fn transform_strategy() -> BoxedStrategy<Transform> {
         prop_oneof![1 => Just(vec![]), 2 => proptest::collection::vec(any::<bool>(), 1..7)],
         prop::bool::weighted(0.3),
         prop_oneof![1 => Just(vec![]), 1 => proptest::collection::vec(any::<u16>(), 2..6)],
+        prop::bool::weighted(0.25),
     )
-        .prop_map(|(rc_mask, rec_perm, width, case_mask, gzip, sample_perm)| Transform { rc_mask, rec_perm, width, case_mask, gzip, sample_perm })
+        .prop_map(|(rc_mask, rec_perm, width, case_mask, gzip, sample_perm, crlf)| Transform { rc_mask, rec_perm, width, case_mask, gzip, sample_perm, crlf })
         .boxed()
 }
 
@@ -123,6 +127,9 @@ fn check(c: &Case, ctx: &Ctx, route: Route) -> Outcome {
         files_a.push((names[i].clone(), cli::p(&fa)));
         let fb = dir.join(format!("b{i}.fa"));
         cli::write_fasta_auto(&fb, &m.trans[i], c.t.width.map(|w| w as usize));
+        if c.t.crlf {
+            cli::to_crlf(&fb);
+        }
         if std::fs::read(&fa).ok() != std::fs::read(&fb).ok() {
             bytes_differ = true;
         }
@@ -192,6 +199,7 @@ fn check(c: &Case, ctx: &Ctx, route: Route) -> Outcome {
             if c.t.width.is_some() { cl.push("rewrap"); }
             if !c.t.case_mask.is_empty() { cl.push("case_flip"); }
             if c.t.gzip { cl.push("gzip"); }
+            if c.t.crlf { cl.push("crlf"); }
             if m.sample_perm.iter().enumerate().any(|(x, y)| x != *y) { cl.push("permute_samples"); }
             if c.k >= 33 { cl.push("k>=33"); }
             pass(bytes_differ && nwin >= 2, key_of(&(c.k, c.rc, &m.orig, &m.trans, &m.sample_perm, c.t.gzip, c.t.width)), cl)
@@ -199,7 +207,7 @@ fn check(c: &Case, ctx: &Ctx, route: Route) -> Outcome {
     }
 }
 
-const RULE: &str = "metamorphic, no model: C01-style inputs (1-3 samples of 1-4 records); a combination of transformations (reverse-complement a subset of records [two-strand only], permute records, re-wrap at width 1..80, flip case by mask, gzip, permute samples); the table of the transformed input must equal the original's (columns permuted by the sample permutation only). Non-trivial: the file bytes or order changed and the input has >=2 windows; distinct by (k, strand, both record sets, options).";
+const RULE: &str = "metamorphic, no model: C01-style inputs (1-3 samples of 1-4 records); a combination of transformations (reverse-complement a subset of records [two-strand only], permute records, re-wrap at width 1..80, flip case by mask, gzip, Windows line endings, permute samples); the table of the transformed input must equal the original's (columns permuted by the sample permutation only). Non-trivial: the file bytes or order changed and the input has >=2 windows; distinct by (k, strand, both record sets, options).";
 
 fn show(c: &Case) -> serde_json::Value {
     let m = materialise(c);
